@@ -6,6 +6,7 @@ import OtelVerif.Lemmas.C01Bytes
 import OtelVerif.Lemmas.C01Size
 import OtelVerif.Model.C01Classify
 import OtelVerif.Lemmas.C01Err
+import OtelVerif.Lemmas.C01Distinct
 /-!
 # C01 — the persistent sending queue never loses an accepted request across crashes
 
@@ -27,6 +28,21 @@ is listed in `di` or lies in `[ri, wi)`. -/
 theorem C01_no_loss (k : Conf) (ls : List Label) :
     ∀ r ∈ (run k ls).accepted, r ∈ (run k ls).finalised ∨ Recoverable (run k ls).st r :=
   (inv_run k ls).main
+
+/-- **Identity.**  Requests are compared by value and the `id` is their identity.  For every script whose offers are
+pairwise different (every real history is such a script: two equal payloads are still two requests; the harness always
+offers fresh ids) `accepted` has no duplicates, so "∀ r ∈ accepted" in the theorems of this file speaks about each accepted
+request on its own.  For scripts that offer the same value twice the statements hold too but identify the copies (one
+finalised copy discharges both): the claim is made for distinct offers. -/
+theorem C01_accepted_nodup_of_distinct_offers (k : Conf) (ls : List Label) (h : (offeredOf ls).Nodup) :
+    (run k ls).accepted.Nodup :=
+  accepted_nodup_of_distinct_offers k ls h
+
+/-- `C01_no_loss` in its per-request reading -/
+theorem C01_no_loss_distinct (k : Conf) (ls : List Label) (h : (offeredOf ls).Nodup) :
+    (run k ls).accepted.Nodup ∧
+    ∀ r ∈ (run k ls).accepted, r ∈ (run k ls).finalised ∨ Recoverable (run k ls).st r :=
+  ⟨C01_accepted_nodup_of_distinct_offers k ls h, C01_no_loss k ls⟩
 
 /-- `accepted` really contains every request for which `Offer` returned nil -/
 theorem C01_offer_ok_accepted (c : Cfg) (m : Mem) (r : Req) (h : c.ph = .live m .idle)
@@ -54,11 +70,36 @@ theorem C01_blocked_offer_accepted_on_wake (c : Cfg) (m : Mem) (r : Req) (rest :
   · rw [if_pos hfull] at hok; cases hok
   · rw [if_neg hfull]; exact List.mem_cons_self
 
-/-- waiting, being woken without room, and being cancelled change nothing durable -/
+/-- a cancelled blocked offer changes nothing durable (the two other blocking outcomes: `C01_full_offer_touches_no_storage`,
+`C01_reblocked_wake_touches_no_storage`) -/
 theorem C01_blocking_touches_no_storage (c : Cfg) (j : Nat) :
     (fire c (.cancel j)).st = c.st ∧ (fire c (.cancel j)).accepted = c.accepted := by
   simp only [fire]
   split <;> exact ⟨rfl, rfl⟩
+
+/-- an offer that finds the queue full — rejected (`ErrQueueIsFull`), rejected as too large, or left waiting
+(`blockOnOverflow`) — changes nothing durable and is not accepted -/
+theorem C01_full_offer_touches_no_storage (c : Cfg) (m : Mem) (r : Req) (h : c.ph = .live m .idle)
+    (hfull : m.size + c.k.sizeof r > c.k.cap) :
+    (fire c (.offer r)).st = c.st ∧ (fire c (.offer r)).accepted = c.accepted := by
+  simp only [fire, h]
+  unfold doOffer
+  rw [if_pos hfull]
+  unfold doOfferFull
+  split
+  · exact ⟨rfl, rfl⟩
+  · split <;> exact ⟨rfl, rfl⟩
+
+/-- a woken waiter that still finds no room goes back to waiting: nothing durable changes, nothing is accepted -/
+theorem C01_reblocked_wake_touches_no_storage (c : Cfg) (m : Mem) (r : Req) (rest : List Req) (h : c.ph = .live m .idle)
+    (hw : m.waiting = r :: rest) (hfull : m.size + c.k.sizeof r > c.k.cap) :
+    (fire c .wake).st = c.st ∧ (fire c .wake).accepted = c.accepted ∧ (fire c .wake).res = .offerBlocked := by
+  simp only [fire, h]
+  unfold doWake
+  rw [hw]
+  dsimp only
+  rw [if_pos hfull]
+  exact ⟨rfl, rfl, rfl⟩
 
 /-- **A request leaves storage only after a final hand-off.** -/
 theorem C01_delete_only_final (k : Conf) (ls : List Label) :
@@ -385,6 +426,11 @@ def exCodec : ReqCodec :=
     law := fun _ => rfl }
 example : readDi (encodeStore exCodec (run { cap := 8 } exScript).st) = [2] :=
   (C01_bytes_refine_reachable exCodec { cap := 8 } exScript (by decide) (by decide)).2.1.trans (by decide)
+
+example : (offeredOf exScript).Nodup ∧ (run { cap := 8 } exScript).accepted.length = 3 := by decide
+-- why the hypothesis matters: the same value offered twice and finalised once
+example : (run { cap := 8 } [.start, .tick, .offer exA, .offer exA, .read, .tick, .done 0 .final]).accepted = [exA, exA] ∧
+    (run { cap := 8 } [.start, .tick, .offer exA, .offer exA, .read, .tick, .done 0 .final]).finalised = [exA] := by decide
 
 -- blockOnOverflow: capacity 1, the second offer waits; after the first request is finalised the wake-up commits it
 def exBlockScript : List Label :=
